@@ -167,8 +167,12 @@ class SelectEventLoop(EventLoop):
         """
         Call all the registered idle callbacks.
         """
-        for callback in self._idle_callbacks.values():
-            callback()
+        # callbacks may add or remove idle callbacks: walk a snapshot of the handles and
+        # skip any that an earlier callback of this pass has removed
+        for handle in list(self._idle_callbacks):
+            callback = self._idle_callbacks.get(handle)
+            if callback is not None:
+                callback()
 
     def run(self) -> None:
         """
